@@ -82,6 +82,15 @@ def run_case(case):
         u, t = rng.choice(cands)
         nodes[u]["cbdefault"] = t
         out["obs"]["programs_with_a_function_as_default_value"] += 1
+    # a function of module b names one symbol twice: as an attribute of module a (which lacks it) and as a global of its
+    # own module that is bound only at the end of the module (after the function was registered)
+    cands = [(u, t) for u in range(len(nodes)) for t in range(u + 1, len(nodes))
+             if nodes[u]["kind"] == "memento" and nodes[u]["mod"] == "b" and nodes[t]["mod"] == "b" and nodes[t]["kind"] in ("plain", "memento")]
+    if cands and case["idx"] % 3 != 2:
+        u, t = rng.choice(cands)
+        nodes[u]["late_glob"] = "lg_%d" % u
+        prog["aliases"].append({"name": "lg_%d" % u, "mod": "b", "target": t})
+        out["obs"]["programs_with_a_symbol_bound_at_the_end_of_the_module"] += 1
     out["sets"]["features"] |= progs.features(prog)
     fns = [[nd["mod"], nd["name"]] for nd in prog["nodes"] if nd["kind"] == "memento"]
 
